@@ -169,8 +169,20 @@ func init() {
 				n *= 2
 			}
 			ops := make([]lruOp, n)
+			burst, burstKey := 0, 0
 			for i := range ops {
 				k := r.IntN(nkeys)
+				if burst > 0 { // a run of reads with no write in between (longer than any small buffer of pending updates)
+					burst--
+					if chance(r, 0.8) {
+						k = burstKey
+					}
+					ops[i] = lruOp{'g', k, 0}
+					continue
+				}
+				if chance(r, 0.01) {
+					burst, burstKey = 30+r.IntN(50), k
+				}
 				switch x := r.IntN(100); {
 				case x < 45:
 					ops[i] = lruOp{'s', k, 1 + r.IntN(1000)}
